@@ -255,6 +255,9 @@ func frameKeyName(k string) string {
 
 // query builds the SMT-LIB text of one obligation (sliced to its cone).
 func (o *Obligation) query() string {
+	if o.raw != "" {
+		return o.raw
+	}
 	fv := o.fv
 	var b strings.Builder
 	b.WriteString(preludeSorts)
